@@ -7,10 +7,12 @@
 (* the liquidity that was active; ghost E[id] accumulates for every position  *)
 (*     fee_bucket * liq_id / liq_active   for the buckets it was in range.    *)
 (* C[id] = claimable now + everything it collected so far must stay within    *)
-(*     E[id] (1 - eps) - D[id] - 2 n[id] - 2  <=  C[id]  <=  E[id] (1 + eps) + 2 n[id] + 2 *)
+(*     E[id] (1 - eps) - D[id] - 2 n[id] - 2  <=  C[id]  <=  E[id] (1 + eps) + D[id] + 2 n[id] + 2 *)
 (* where n[id] counts the accrual / claim events that touched the position    *)
 (* and D[id] is the accumulated truncation of the per-unit-liquidity growth   *)
-(* (liq_id * ulp of the accumulator per bucket).  A position that was never   *)
+(* (liq_id * ulp of the accumulator per bucket) plus 2e-18 of the amount       *)
+(* charged per touching swap (the code's fee ratio f/(1-f) is an 18-decimal     *)
+(* Dec rounded up).  A position that was never                                  *)
 (* in range while fees accrued has E = 0 and must have C = 0 exactly.         *)
 (* Collecting, adding to, partially withdrawing and transferring leave E      *)
 (* untouched, so they can neither lose nor duplicate matured rewards.         *)
@@ -116,7 +118,11 @@ NextD(ev) ==
         ELSE IF steps = <<>> \/ i \notin PosIds(prev) THEN D[i]
         ELSE LET p == PosOf(prev, i)
                  k == Touch(p, steps)
-             IN  RNorm(RAdd(D[i], RMul(RInt(B!OfInt(k)), RMul(RScaled(p.liq, 18), UlpFee))))]
+                 \* the code charges a fully traversed bucket in * Dec(f/(1-f)) with the ratio rounded up at 1e-18:
+                 \* per bucket up to in * 1e-18 tokens more than the exact fee, which also shifts what is left for
+                 \* the later buckets; bounded by 2e-18 of the amount charged, per swap that touches the position
+                 ratioSlack == IF k > 0 THEN RScaled(B!Mul(B!OfInt(2), Charged(ev.st, ev.who, ev.args.zfo)), 18) ELSE RZero
+             IN  RNorm(RAdd(RAdd(D[i], ratioSlack), RMul(RInt(B!OfInt(k)), RMul(RScaled(p.liq, 18), UlpFee))))]
 
 NextInRange(ev) ==
     [i \in AllIds(ev.st) |->
@@ -134,7 +140,7 @@ FeeBoundsOK(st, e, p, n, dd) ==
             ee == e[i][d]
             k  == RInt(B!OfInt(2 * n[i] + 2))
             ok == /\ (RIsZero(ee) => RIsZero(c))                                        \* never earned => nothing
-                  /\ RLe(c, RAdd(RMul(ee, RAdd(ROne, Eps)), k))                         \* never more than earned
+                  /\ RLe(c, RAdd(RAdd(RMul(ee, RAdd(ROne, Eps)), dd[i]), k))            \* never more than earned
                   /\ RLe(RSub(RSub(RMul(ee, RSub(ROne, Eps)), dd[i]), k), c)            \* short only by dust
         IN  ok \/ (PrintT(<<"FEE-BOUNDS", [id |-> i, denom |-> d, claimablePlusPaid |-> B!ToInt(B!Min(RFloor(c), B!OfInt(2000000000))),
                                           earnedFloor |-> RFloor(ee), dustFloor |-> RFloor(dd[i]), events |-> n[i]]>>) /\ FALSE)
